@@ -123,6 +123,17 @@ func (v *Version) Compare(other *Version) int {
 	return compareSegmentArrays(v.segments, other.segments)
 }
 
+// splitReleaseAndRest splits the segments at the first letter segment: the
+// release (1.2.3 of 1.2.3.rc1) and everything after it
+func (v *Version) splitReleaseAndRest() ([]segment, []segment) {
+	for i, seg := range v.segments {
+		if !seg.isNumeric {
+			return v.segments[:i], v.segments[i:]
+		}
+	}
+	return v.segments, nil
+}
+
 // splitNumericAndPrerelease splits version into numeric and prerelease parts
 func (v *Version) splitNumericAndPrerelease() ([]segment, []segment) {
 	var numeric, prerelease []segment
